@@ -59,6 +59,7 @@ static char DT[] = "D: r\n";
 
 /* ---------------- symbolic inputs */
 unsigned char in[NA];          /* the message, exactly N bytes */
+unsigned char split_at[N + 1];     /* per line: how many of its bytes were carried over from an earlier buffer fill (getln2 readers) */
 unsigned int fail_op;          /* FAULTS: output operation number that fails (>= count: none) */
 unsigned int read_err;         /* FAULTS: read error instead of message byte read_err (> N: none) */
 unsigned char misc_fail;       /* FAULTS: 1 rewind fails, 2 open fails */
@@ -70,12 +71,21 @@ void sym_inputs(void)
 #ifdef REPLAY
 #include "replay_inputs.inc"
 #else
-  SYM_ARR(in); SYM(fail_op); SYM(read_err); SYM(misc_fail); SYM(lock_how); SYM(len_open); SYM(len_lock);
+  SYM_ARR(in); SYM(fail_op); SYM(read_err); SYM(misc_fail); SYM(lock_how); SYM(len_open); SYM(len_lock); SYM_ARR(split_at);
 #endif
 }
 
 /* ---------------- model state */
 static unsigned int inpos;
+/* a reader built on getln2() gets every line in two pieces; where the read-buffer boundary
+ * falls is not under the caller's control: symbolic per line */
+static unsigned int nsplit;
+unsigned int ideal_getln2_split(unsigned int linelen)
+{
+  unsigned int k = split_at[nsplit < N ? nsplit : N];
+  ++nsplit;
+  return k < linelen ? k : 0;
+}
 static unsigned char outb[OUTMAX];
 static unsigned int outlen;               /* bytes accepted by the mbox stream */
 static unsigned int nops;                 /* output operations so far */
